@@ -20,14 +20,17 @@
 (* saw on the wire with the wire form of what was sent (WireIdentity).     *)
 EXTENDS UDFProto, TraceCommon
 
-VARIABLES l, outObs, resObs, curCall, callActive
-tvars == <<vars, l, outObs, resObs, curCall, callActive>>
+VARIABLES l, outObs, resObs, curCall, callActive,
+          plan,   \* the fault the peer was told to commit: [kind, at] (at = 0: none)
+          inq     \* task level: lines of the messages queued in front of the UDF node, not yet offered by its pump
+tvars == <<vars, l, outObs, resObs, curCall, callActive, plan, inq>>
 
 Ln == Trace[l]
 IsEv(e) == l <= Len(Trace) /\ Ln.ev = e /\ l' = l + 1
-Same == UNCHANGED <<outObs, resObs, curCall, callActive>>
+Same == UNCHANGED <<outObs, resObs, curCall, callActive, plan, inq>>
+NoPlan == [kind |-> NIL, at |-> 0]
 
-TrInit == Init /\ l = 1 /\ outObs = 0 /\ resObs = 0 /\ curCall = NoCall /\ callActive = FALSE /\ HWInit
+TrInit == Init /\ l = 1 /\ outObs = 0 /\ resObs = 0 /\ curCall = NoCall /\ callActive = FALSE /\ plan = NoPlan /\ inq = <<>> /\ HWInit
 
 TrReset ==
     /\ IsEv("Reset")
@@ -40,17 +43,19 @@ TrReset ==
     /\ err' = NIL
     /\ writer' = [pc |-> "select", buf |-> <<>>, inNil |-> FALSE, reqNil |-> FALSE, begin |-> NIL]
     /\ toAgent' = [q |-> <<>>, closed |-> FALSE]
-    /\ agent' = [seen |-> 0, restored |-> NIL, faulted |-> FALSE, alive |-> TRUE]
+    /\ agent' = [seen |-> 0, restored |-> NIL, faulted |-> FALSE, fkind |-> NIL, alive |-> TRUE]
     /\ fromAgent' = [q |-> <<>>, closed |-> FALSE]
     /\ reader' = [pc |-> "read", msg |-> NIL, hasBegin |-> FALSE, begin |-> NIL, inBatch |-> FALSE, points |-> <<>>, pend |-> NIL]
     /\ kaBuf' = 0 /\ respC' = [k \in ReqKinds |-> <<>>]
     /\ ticker' = [pc |-> "done", n |-> 0]
     /\ watcher' = "watch" /\ crashed' = FALSE /\ diag' = {} /\ wireSeen' = <<>>
-    /\ outObs' = 0 /\ resObs' = 0 /\ curCall' = NoCall /\ callActive' = FALSE
+    /\ outObs' = 0 /\ resObs' = 0 /\ curCall' = NoCall /\ callActive' = FALSE /\ plan' = NoPlan /\ inq' = <<>>
 
 (* ---- from logged items to model messages (identities only) ---- *)
 BadFields(fs) == \E i \in 1 .. Len(fs) : fs[i][2] \notin FieldTypes
-FOf(fs) == IF BadFields(fs) THEN [z |-> <<"unsupported", "">>] ELSE <<>>
+Utf8Fields(fs) == \E i \in 1 .. Len(fs) : fs[i][2] = "string/invalid-utf8"
+FOf(fs) == IF Utf8Fields(fs) THEN [z |-> <<"string/invalid-utf8", "">>]
+           ELSE IF BadFields(fs) THEN [z |-> <<"unsupported", "">>] ELSE <<>>
 Pl(n, j, fs) == [name |-> ToString(n), dims |-> <<>>, tags |-> <<n>>, fields |-> FOf(fs), time |-> <<n, j>>]
 BPl(n, j, fs) == [tags |-> <<n>>, fields |-> FOf(fs), time |-> <<n, j>>]
 Hdr(n) == [name |-> ToString(n), tags |-> <<n>>, byName |-> FALSE, tmax |-> n]
@@ -71,11 +76,17 @@ BatchCanon(b) == [k |-> "batch", name |-> b.name, group |-> b.group, byName |-> 
                   tags |-> b.tags, tmax |-> b.tmax, pts |-> b.pts]
 \* what the consumer must see for a model output
 ExpectOut(o) ==
-    IF o.k = "point" THEN Trace[o.pl.time[1]].item
+    IF o.k = "point" /\ o.pl.name # "" THEN Trace[o.pl.time[1]].item
+    ELSE IF o.k = "point" THEN      \* a batch point the (misbehaving) peer sent back outside any batch: it surfaces as a bare point
+         LET src == SrcBP(o.pl.time) IN
+         [k |-> "point", name |-> "", db |-> "", rp |-> "", group |-> "", byName |-> FALSE, dims |-> <<>>,
+          tags |-> src.tags, fields |-> src.fields, t |-> src.t]
+    ELSE IF o.hdr.name = "junk" THEN [k |-> "junk", n |-> Len(o.pts)]     \* a batch the misbehaving peer made up
     ELSE LET h == Trace[o.hdr.tags[1]].item IN
          [k |-> "batch", name |-> h.name, group |-> h.group, byName |-> h.byName, dims |-> h.dims, tags |-> h.tags,
           tmax |-> h.tmax, pts |-> [i \in 1 .. Len(o.pts) |-> SrcBP(o.pts[i].time)]]
-LoggedOut(it) == IF it.k = "batch" THEN BatchCanon(it) ELSE it
+LoggedOut(it) == IF it.k = "batch" /\ it.name = "c19-junk" THEN [k |-> "junk", n |-> Len(it.pts)]
+                 ELSE IF it.k = "batch" THEN BatchCanon(it) ELSE it
 
 \* what the peer must have seen on the wire for the k-th data message of ws
 RECURSIVE LastBegin(_, _)
@@ -100,14 +111,31 @@ ExpectWire(ws, k) ==
 TrSend == IsEv("Send") /\ PumpOffer(MsgOf(l)) /\ Same
 TrPumpDone ==
     /\ IsEv("PumpDone")
-    /\ PumpFinish \/ (pump.pc = "done" /\ UNCHANGED vars)
+    /\ (inq = <<>> /\ PumpFinish) \/ (pump.pc = "done" /\ UNCHANGED vars)
     /\ Same
+\* task level: a message has passed the sink in front of the UDF node (it sits in the node's input edge)
+TrQueue ==
+    /\ IsEv("Queue")
+    /\ inq' = Append(inq, l)
+    /\ UNCHANGED vars /\ UNCHANGED <<outObs, resObs, curCall, callActive, plan>>
+\* the peer was told to misbehave at its at-th data message
+ModelKind(k) == CASE k \in {"hugeLen", "garbage", "truncFrame"} -> "readerr"
+                  [] k = "emptyFrame" -> "unknown"
+                  [] k = "earlyClose" -> "close"
+                  [] OTHER -> k
+\* the driver killed the peer (both pipes broken) at this point of the script
+TrPeerDies == IsEv("PeerDies") /\ AgentDies /\ Same
+TrBystander == IsEv("Bystander") /\ Ln.ok /\ UNCHANGED vars /\ Same
+TrFault ==
+    /\ IsEv("Fault")
+    /\ plan' = [kind |-> ModelKind(Ln.kind), at |-> Ln.at]
+    /\ UNCHANGED vars /\ UNCHANGED <<outObs, resObs, curCall, callActive, inq>>
 TrCall ==
     /\ IsEv("Call") /\ ~callActive
     /\ LET c == [kind |-> Ln.kind, data |-> Ln.data] IN
        /\ curCall' = c /\ callActive' = TRUE
        /\ CallStart(c)
-    /\ UNCHANGED <<outObs, resObs>>
+    /\ UNCHANGED <<outObs, resObs, plan, inq>>
 TrStopCall == IsEv("StopCall") /\ StopCall /\ Same
 TrAbort == IsEv("Abort") /\ OwnerAbort /\ Same
 
@@ -131,14 +159,14 @@ TrRet ==
               /\ Ln.padok
        /\ (r.err = NIL /\ r.kind # "snapshot") => r.val.rid = r.rid
     /\ resObs' = resObs + 1 /\ callActive' = FALSE
-    /\ UNCHANGED vars /\ UNCHANGED <<outObs, curCall>>
+    /\ UNCHANGED vars /\ UNCHANGED <<outObs, curCall, plan, inq>>
 \* EchoIdentity, observed
 TrOut ==
     /\ IsEv("Out")
     /\ outObs < Len(outs)
     /\ ExpectOut(outs[outObs + 1]) = LoggedOut(Ln.item)
     /\ outObs' = outObs + 1
-    /\ UNCHANGED vars /\ UNCHANGED <<resObs, curCall, callActive>>
+    /\ UNCHANGED vars /\ UNCHANGED <<resObs, curCall, callActive, plan, inq>>
 TrOutClosed == IsEv("OutClosed") /\ outClosed /\ outObs = Len(outs) /\ UNCHANGED vars /\ Same
 TrStopRet ==
     /\ IsEv("StopRet")
@@ -153,13 +181,48 @@ TrAgentSaw ==
 TrDiag ==
     /\ IsEv("Diag")
     /\ Ln.dropped <=> ("dropped point" \in diag)
+    /\ ("KF:invalid-utf8-aborts-udf" \in diag) => PrintT(<<"KF-HIT", "invalid-utf8-aborts-udf">>)
     /\ ~crashed
     /\ UNCHANGED vars /\ Same
 TrNote == IsEv("Note") /\ UNCHANGED vars /\ Same
 
-TrSilent == ~crashed /\ Internal(curCall, callActive) /\ UNCHANGED l /\ Same
+(* Known finding invalid-utf8-aborts-udf (named deviation, guarded by exactly that input class): a point whose     *)
+(* string field is not valid UTF-8 cannot be marshalled (proto3 strings); WriteMessage fails before writing        *)
+(* anything, writeData returns "write error: string field contains invalid UTF-8" and the whole UDF is aborted -   *)
+(* where the property (C05/C19) allows an error for that point at most.  The conforming behaviour (the point is    *)
+(* reported and dropped, like any field the protocol cannot carry) is what UDFProto does with it.                  *)
+KFUtf8 ==
+    /\ writer.pc = "select" /\ ~writer.inNil /\ pump.pc = "offer"
+    /\ pump.cur.k = "point" /\ "z" \in DOMAIN pump.cur.pl.fields /\ pump.cur.pl.fields["z"][1] = "string/invalid-utf8"
+    /\ pump' = [pump EXCEPT !.pc = "idle", !.i = pump.i + 1, !.cur = NIL]
+    /\ writer' = [writer EXCEPT !.pc = "done"]
+    /\ toAgent' = [toAgent EXCEPT !.closed = TRUE]
+    /\ SetErr("write error") /\ want' = want \cup {"W"}
+    /\ diag' = diag \cup {"KF:invalid-utf8-aborts-udf"}
+    /\ UNCHANGED <<caller, results, stopper, stopRet, outs, outClosed, owner, mu, flags,
+                   agent, fromAgent, reader, kaBuf, respC, ticker, watcher, crashed, wireSeen>>
 
-TrNext == TrReset \/ TrSend \/ TrPumpDone \/ TrCall \/ TrStopCall \/ TrAbort
+\* task level: the UDF node has not opened its UDF yet (no data can have reached the server): the snapshot of the
+\* node fails with "UDF is not open yet" instead of being asked of a server that does not exist
+CallNotOpen(c) ==
+    /\ caller.pc = "enter" /\ pump.i = 0 /\ pump.pc = "idle" /\ outs = <<>> /\ wireSeen = <<>>
+    /\ Finish(c, "not open", NIL)
+    /\ UNCHANGED <<pump, stopper, stopRet, outs, outClosed, owner, mu, want, flags, err, writer, toAgent,
+                   agent, fromAgent, reader, kaBuf, respC, ticker, watcher, crashed, diag, wireSeen>>
+
+\* the peer commits exactly the planned fault, exactly at the planned message
+PeerAsPlanned ==
+    /\ (agent'.faulted /\ ~agent.faulted) => (plan.at = agent'.seen /\ plan.kind = agent'.fkind /\ agent'.fkind # "die")
+    /\ (agent'.seen = plan.at /\ agent.seen < plan.at) => agent'.faulted
+TrSilent ==
+    /\ ~crashed
+    /\ \/ Internal(curCall, callActive) /\ PeerAsPlanned /\ UNCHANGED inq
+       \/ KFUtf8 /\ UNCHANGED inq
+       \/ callActive /\ CallNotOpen(curCall) /\ UNCHANGED inq
+       \/ inq # <<>> /\ PumpOffer(MsgOf(Head(inq))) /\ inq' = Tail(inq)
+    /\ UNCHANGED <<l, outObs, resObs, curCall, callActive, plan>>
+
+TrNext == TrReset \/ TrSend \/ TrQueue \/ TrFault \/ TrPeerDies \/ TrBystander \/ TrPumpDone \/ TrCall \/ TrStopCall \/ TrAbort
           \/ TrSent \/ TrRet \/ TrOut \/ TrOutClosed \/ TrStopRet \/ TrAgentSaw \/ TrDiag \/ TrNote \/ TrSilent
 TrSpec == TrInit /\ [][TrNext]_tvars
 
